@@ -137,11 +137,43 @@ def parsed_from_text():
     /// what the line number machine requires follows from what the parser ensures
     pub proof fn lemma_parsed_valid(&self, b0: RView, given: u8)
         requires self.parsed_from(b0, given)
-        ensures valid_line_hdr(self.lh()), self.lh() == lp_lh(b0, given), self.program_view() == lp_program(b0), self.sol() == lp_sol(b0)
+        ensures valid_line_hdr(self.lh()), self.lh() == lp_lh(b0, given), self.program_view() == lp_program(b0), self.sol() == lp_sol(b0), lp_fits(b0)
     {{
         lemma_fixed_valid(b0, given, self.encoding, self.unit_length.as_nat(), self.header_length.as_nat(), self.line_encoding, self.opcode_base, self.sol(), self.program_view());
     }}
 """
+
+
+SEQ_SPEC = """
+/// position just past the last sequence (the start of the program if there is none)
+pub open spec fn seqs_end<R: Reader>(pv: RView, s: Seq<LineSequence<R>>) -> nat {
+    if s.len() == 0 { pv.start } else { s.last().iv().start + s.last().iv().len }
+}
+/// the instruction slices of the sequences tile the window [pv.start, upto) of the program view pv: in order, no gaps,
+/// no overlaps, each at least one byte long
+pub open spec fn seqs_tile<R: Reader>(pv: RView, s: Seq<LineSequence<R>>, upto: nat) -> bool {
+    &&& forall|i: int| 0 <= i < s.len() ==> inside(pv, (#[trigger] s[i]).iv()) && s[i].iv().len >= 1
+    &&& forall|i: int| 0 <= i < s.len() ==> (#[trigger] s[i]).iv().start == (if i == 0 { pv.start } else { s[i - 1].iv().start + s[i - 1].iv().len })
+    &&& upto == seqs_end(pv, s)
+}
+"""
+
+
+def strengthen_next_row(sk):
+    """`sequences` hands the cursor of the row iterator to `remove_trailing`, whose precondition needs the cursor to have
+    moved FORWARD inside the same buffer.  Batch line's contract of `LineRows::next_row` exports root and length only; one
+    frame clause (and its loop invariant) is added to that item here - inside its contract insertion, so the provenance
+    check of the item is unaffected - and is proved with the rest of next_row in this batch."""
+    for item, label, owners in sk.mods[M]['chunks']:
+        if isinstance(item, Item) and item.label == 'LineRows':
+            a1 = '    final(self).wf(), // [C04:rows-wf]\n'
+            a2 = 'self.instructions.iv().root == old(self).instructions.iv().root, '
+            if item.text.count(a1) < 1 or item.text.count(a2) < 1:
+                raise Lost('line.LineRows::next_row: contract anchors not found')
+            item.text = item.text.replace(a1, a1 + '    !(res is Err) ==> within(old(self).instrs(), final(self).instrs()), // [C01:frame]\n', 1)
+            item.text = item.text.replace(a2, a2 + 'within(old(self).instructions.iv(), self.instructions.iv()), ', 1)
+            return
+    raise Lost('line.LineRows item not found')
 
 GHOST_IMPLS = '''
 impl<R, Offset> FileEntry<R, Offset>
@@ -199,10 +231,11 @@ use crate::aspec::*;''')
         f'[C01:frame] within({B0}, {FIN})'],
         loops={0: f'''invariant
                 old(input).rv().len >= 1, format_count == {B0}.at(0),
-                adv({B0}, input.rv(), 1 + lebs_len({B0}, 1, (2 * _verif_i) as nat)),
-                format@.len() == _verif_i,
-                forall|i: int| 0 <= i < _verif_i ==> fmt_entry_ok({B0}, i, #[trigger] format@[i]),
-                path_count == count_ct(format@, lnct_path(), _verif_i as int), 0 <= path_count <= _verif_i,'''},
+                adv({B0}, input.rv(), 1 + lebs_len({B0}, 1, (2 * _verif_i) as nat)), // [C04:entry-format-len]
+                format@.len() == _verif_i, // [C04:entry-format]
+                forall|i: int| 0 <= i < _verif_i ==> fmt_entry_ok({B0}, i, #[trigger] format@[i]), // [C04:entry-format-fields]
+                0 <= path_count <= _verif_i,
+                path_count == count_ct(format@, lnct_path(), _verif_i as int), // [C04:entry-format][C01:entry-format-one-path]'''},
         before=[('let content_type = input.read_uleb128()?;', 'proof { reveal_with_fuel(lebs_len, 3); }'),
                 ('format.push(FileEntryFormat { content_type, form });',
                  'proof { lemma_count_push(format@, FileEntryFormat { content_type, form }, lnct_path(), _verif_i as int); '
@@ -228,9 +261,9 @@ use crate::aspec::*;''')
         f'[C04:directory-v5-len] res is Ok ==> adv({B0}, {FIN}, {FL(N)})',
         f'[C01:frame] within({B0}, {FIN})'],
         loops={0: f'''invariant
-                adv({B0}, input.rv(), {FL('it.index as int')}),
+                adv({B0}, input.rv(), {FL('it.index as int')}), // [C04:directory-v5-len]
                 ({{ let j = last_ct(formats@, lnct_path(), it.index as int);
-                   if j < 0 {{ path_name is None }} else {{ path_name matches Some(x) && line_attr_ok(field_view({B0}, encoding, formats@, j), encoding, formats@[j].form.0 as nat, x) }} }}),'''},
+                   if j < 0 {{ path_name is None }} else {{ path_name matches Some(x) && line_attr_ok(field_view({B0}, encoding, formats@, j), encoding, formats@[j].form.0 as nat, x) }} }}), // [C04:directory-v5][C01:path-unwrap]'''},
         before=[('Ok(path_name.unwrap())', f'proof {{ lemma_count_last(formats@, lnct_path(), {N}); }}')])
     sk.add(M, pd)
 
@@ -252,16 +285,16 @@ use crate::aspec::*;''')
         f'[C04:file-v5-len] res is Ok ==> adv({B0}, {FIN}, {FL(N)})',
         f'[C01:frame] within({B0}, {FIN})'],
         loops={0: f'''invariant
-                adv({B0}, input.rv(), {FL(IDX)}),
+                adv({B0}, input.rv(), {FL(IDX)}), // [C04:file-v5-len]
                 ({{ let j = last_ct(formats@, lnct_path(), {IDX});
-                   if j < 0 {{ path_name is None }} else {{ path_name matches Some(x) && line_attr_ok(field_view({B0}, encoding, formats@, j), encoding, formats@[j].form.0 as nat, x) }} }}),
+                   if j < 0 {{ path_name is None }} else {{ path_name matches Some(x) && line_attr_ok(field_view({B0}, encoding, formats@, j), encoding, formats@[j].form.0 as nat, x) }} }}), // [C04:file-v5-path][C01:path-unwrap]
                 ({{ let j = last_ct(formats@, lnct_llvm_source(), {IDX});
-                   if j < 0 {{ source is None }} else {{ source matches Some(x) && line_attr_ok(field_view({B0}, encoding, formats@, j), encoding, formats@[j].form.0 as nat, x) }} }}),
-                directory_index as nat == {NUM("lnct_directory_index()", IDX)},
-                timestamp as nat == {NUM("lnct_timestamp()", IDX)},
-                size as nat == {NUM("lnct_size()", IDX)},
+                   if j < 0 {{ source is None }} else {{ source matches Some(x) && line_attr_ok(field_view({B0}, encoding, formats@, j), encoding, formats@[j].form.0 as nat, x) }} }}), // [C04:file-v5-source]
+                directory_index as nat == {NUM("lnct_directory_index()", IDX)}, // [C04:file-v5-directory-index]
+                timestamp as nat == {NUM("lnct_timestamp()", IDX)}, // [C04:file-v5-timestamp]
+                size as nat == {NUM("lnct_size()", IDX)}, // [C04:file-v5-size]
                 ({{ let m = md5_upto({B0}, encoding, formats@, {IDX});
-                   if m < 0 {{ forall|k: int| 0 <= k < 16 ==> md5[k] == 0 }} else {{ forall|k: int| 0 <= k < 16 ==> md5[k] == {B0}.at(m + k) }} }}),'''},
+                   if m < 0 {{ forall|k: int| 0 <= k < 16 ==> md5[k] == 0 }} else {{ forall|k: int| 0 <= k < 16 ==> md5[k] == {B0}.at(m + k) }} }}), // [C04:file-v5-md5]'''},
         before=[('Ok(FileEntry {', f'proof {{ lemma_count_last(formats@, lnct_path(), {N}); }}')])
     sk.add(M, pf)
 
@@ -279,19 +312,30 @@ use crate::aspec::*;''')
     hp.insert_members(parsed_from_text())
     # the table predicates are atoms in the straight-line part of `parse` (revealed inside the four table loops)
     hp.insert_after(') -> Result<LineProgramHeader<R, Offset>> {', '\n        hide(dirs_v4_ok); hide(files_v4_ok); hide(dirs_v5_ok); hide(files_v5_ok);')
+    # closure contract (inserted text, verified against the closure body): Verus does not infer closure postconditions
+    ZERO_ENTRY = ('e.path_v() == AttributeValue::<R, Offset>::String(name) && e.dir_v() == 0 && e.time_v() == 0 && e.size_v() == 0 '
+                  '&& e.source_v() is None && (forall|k: int| 0 <= k < 16 ==> e.md5_v()[k] == 0)')
+    hp.insert_after('                source: None,\n            }', ' }')
+    hp.insert_after('comp_name.map(|name', ': R')
+    hp.insert_before('FileEntry {\n                path_name: AttributeValue::String(name),', f'-> (e: FileEntry<R, Offset>) ensures {ZERO_ENTRY} {{ ')
     hp.splice('parse', ret='res', canary=True, requires=[
         # versions 2-4 have no address_size field: the caller passes the address size of the unit (validated by the unit
         # header parser).  DebugLine::program documents "must match the compilation unit"; see observation O-line-hdr-1
         '[C04:address-size-pre] valid_address_size(address_size)'],
         ensures=[f'{tags} res matches Ok(h) ==> ({{ let b0 = {HB0}; let given = address_size; {body} }})' for tags, body in header_clauses('h')] + [
         f'[C04:header-offset] res matches Ok(h) ==> h.offset == offset',
+        # versions 2-4 number directories and files from 1; entry 0 is the unit's DW_AT_comp_dir / DW_AT_name, passed in by
+        # the caller.  Version 5 tables carry entry 0 themselves.
+        f'[C04:header-comp] res matches Ok(h) ==> (lp_version({HB0}) >= 5 ==> h.comp_dir is None && h.comp_file is None) && (lp_version({HB0}) <= 4 ==> h.comp_dir == comp_dir && '
+        f'(match comp_name {{ None => h.comp_file is None, Some(name) => h.comp_file matches Some(e) && {ZERO_ENTRY} }}))',
         f'res matches Ok(h) ==> h.parsed_from({HB0}, address_size)',
         f'[C04:header-consumed] res is Ok ==> adv({HB0}, {FIN}, il_size({HB0}) + il_len({HB0}))',
         f'[C01:frame] within({HB0}, {FIN})'],
         before=[('let (unit_length, format) = input.read_initial_length()?;', 'let ghost b0 = input.rv(); let ghost given = address_size; let ghost tv = lp_tables(b0);'),
+                ('let minimum_instruction_length = rest.read_u8()?;', 'proof {\n assert(header_length.as_nat() == lp_header_length(b0) && rest.rv() == lp_hdr(b0) && program_buf.rv() == lp_program(b0)); // [C04:header-fields][C04:header-program]\n }'),
                 ('let directory = rest.read_null_terminated_slice()?;', 'let ghost vb = rest.rv(); proof { reveal(dirs_v4_ok); }'),
                 ('include_directories.push(parse_directory_v5(', 'proof { reveal(dirs_v5_ok); }'),
-                ('file_names.push(parse_file_v5(rest, encoding, &file_name_entry_format)?);', 'proof { reveal(files_v5_ok); }'),
+                ('file_names.push(parse_file_v5(', 'proof { reveal(files_v5_ok); }'),
                 ('let comp_file;', 'let ghost fv = rest.rv();'),
                 ('let path_name = rest.read_null_terminated_slice()?;', 'let ghost vb = rest.rv(); proof { reveal(files_v4_ok); }'),
                 ('let header = LineProgramHeader {', 'proof { lemma_fixed_valid(b0, given, encoding, unit_length.as_nat(), header_length.as_nat(), line_encoding, opcode_base, standard_opcode_lengths.rv(), program_buf.rv()); }')],
@@ -306,39 +350,92 @@ use crate::aspec::*;''')
                 ' lemma_fixed_intro(b0, given, encoding, unit_length.as_nat(), header_length.as_nat(), line_encoding, opcode_base, standard_opcode_lengths.rv(), program_buf.rv());\n }'),
                # stepping stones: the three nested windows (unit, header proper, program)
                ('let rest = &mut input.split(unit_length)?;', 'proof {\n assert(rest.rv() == lp_unit(b0) && il_size(b0) + il_len(b0) <= b0.len && format == il_format(b0) && unit_length.as_nat() == il_len(b0)); // [C04:header-fields]\n }'),
-               ('rest.truncate(header_length)?;', 'proof {\n assert(header_length.as_nat() == lp_header_length(b0) && rest.rv() == lp_hdr(b0) && program_buf.rv() == lp_program(b0)); // [C04:header-fields][C04:header-program]\n }'),
+
                ('let directory = rest.read_null_terminated_slice()?;', 'proof { lemma_cstr_len0(vb, directory.rv().len); }'),
                ('let path_name = rest.read_null_terminated_slice()?;', 'proof { lemma_cstr_len0(vb, path_name.rv().len); }')],
         loops={0: f'''invariant_except_break
-                adv(tv, rest.rv(), strs_len(tv, include_directories@.len() as int)),
+                adv(tv, rest.rv(), strs_len(tv, include_directories@.len() as int)), // [C04:header-dirs-v4]
             invariant
                 {FIX}, encoding.version <= 4,
-                dirs_v4_ok(tv, include_directories@), directory_entry_format@.len() == 0,
+                directory_entry_format@.len() == 0,
+                dirs_v4_ok(tv, include_directories@), // [C04:header-dirs-v4]
             ensures
-                adv(tv, rest.rv(), strs_len(tv, include_directories@.len() as int) + 1),
-                table_end_v4(tv, strs_len(tv, include_directories@.len() as int) as int),
+                adv(tv, rest.rv(), strs_len(tv, include_directories@.len() as int) + 1), // [C04:header-dirs-v4]
+                table_end_v4(tv, strs_len(tv, include_directories@.len() as int) as int), // [C04:header-dirs-v4]
             decreases rest.rv().len''',
                1: f'''invariant
                 {FIX}, encoding.version >= 5,
                 fmts_ok(tv, directory_entry_format@), count as nat == entries_count(tv),
-                adv(entries_view(tv), rest.rv(), entries_len(entries_view(tv), encoding, directory_entry_format@, _verif_i as int)),
+                adv(entries_view(tv), rest.rv(), entries_len(entries_view(tv), encoding, directory_entry_format@, _verif_i as int)), // [C04:header-dirs-v5]
                 include_directories@.len() == _verif_i,
-                dirs_v5_ok(entries_view(tv), encoding, directory_entry_format@, include_directories@),''',
+                dirs_v5_ok(entries_view(tv), encoding, directory_entry_format@, include_directories@), // [C04:header-dirs-v5]''',
                2: f'''invariant_except_break
-                adv(fv, rest.rv(), files_v4_len(fv, file_names@.len() as int)),
+                adv(fv, rest.rv(), files_v4_len(fv, file_names@.len() as int)), // [C04:header-files-v4]
             invariant
                 {FIX}, encoding.version <= 4,
-                files_v4_ok(fv, file_names@), file_name_entry_format@.len() == 0,
+                file_name_entry_format@.len() == 0,
+                files_v4_ok(fv, file_names@), // [C04:header-files-v4]
             ensures
-                table_end_v4(fv, files_v4_len(fv, file_names@.len() as int) as int),
+                table_end_v4(fv, files_v4_len(fv, file_names@.len() as int) as int), // [C04:header-files-v4]
             decreases rest.rv().len''',
                3: f'''invariant
                 {FIX}, encoding.version >= 5,
                 fmts_ok(fv, file_name_entry_format@), count as nat == entries_count(fv),
-                adv(entries_view(fv), rest.rv(), entries_len(entries_view(fv), encoding, file_name_entry_format@, _verif_i as int)),
+                adv(entries_view(fv), rest.rv(), entries_len(entries_view(fv), encoding, file_name_entry_format@, _verif_i as int)), // [C04:header-files-v5]
                 file_names@.len() == _verif_i,
-                files_v5_ok(entries_view(fv), encoding, file_name_entry_format@, file_names@),'''})
+                files_v5_ok(entries_view(fv), encoding, file_name_entry_format@, file_names@), // [C04:header-files-v5]'''})
     sk.add(M, hp)
+
+    # ---- DebugLine::program (the public entry point: header at `offset` of .debug_line)
+    sk.add(M, ln.item(r'^pub struct DebugLine<R>').clean(offset=False))
+    dl = ln.item(r'^impl<R: Reader> DebugLine<R> \{', label='DebugLine')
+    dl.custom('R-CLONE', 'self.debug_line_section.clone()', 'reader_clone(&self.debug_line_section)')
+    dl.clean(offset=False)
+    dl.own(OWN)
+    dl.insert_members('    /// ghost: the .debug_line section\n    pub closed spec fn sv(&self) -> RView { self.debug_line_section.rv() }')
+    AT = 'view_at(self.sv(), offset.0.as_nat() as int)'
+    dl.splice('program', ret='res', canary=True, requires=['[C04:address-size-pre] valid_address_size(address_size)'], ensures=[
+        f'[C04:program-header] res matches Ok(p) ==> offset.0.as_nat() <= self.sv().len && p.hdr().parsed_from({AT}, address_size)',
+        # what IncompleteLineProgram::rows / sequences and the whole machine of batch `line` require
+        '[C04:header-valid][C01:header-valid] res matches Ok(p) ==> valid_line_hdr(p.hdr().lh())',
+        f'[C04:program-view][C10:view] res matches Ok(p) ==> p.hdr().program_view() == lp_program({AT}) && inside(self.sv(), p.hdr().program_view())'],
+        before=[('let header = LineProgramHeader::parse(', 'let ghost hv = input.rv();'),
+                ('let program = IncompleteLineProgram { header };', 'proof { header.lemma_parsed_valid(hv, address_size); }')])
+    sk.add(M, dl)
+
+    # ---- IncompleteLineProgram::sequences (the loop batch `line` left undecided)
+    strengthen_next_row(sk)
+    sk.add(M, SEQ_SPEC, label='seqs_tile')
+    sq = ln.item(r'^impl<R, Offset> IncompleteLineProgram<R, Offset>', label='IncompleteLineProgram(sequences)')
+    sq.keep_only(['sequences'])
+    sq.custom('R-CLONE', 'rows.instructions.clone()', 'instructions_clone(&rows.instructions)', count=2)
+    sq.clean(offset=False)
+    sq.own(OWN)
+    PV = 'self.hdr().program_view()'
+    sq.splice('sequences', ret='res', canary=True, requires=['[C04:valid-header] valid_line_hdr(self.hdr().lh())'], ensures=[
+        # DW_LNE_define_file may have appended to the file table; nothing else of the header changes
+        '[C04:sequences-header] res matches Ok(p) ==> (&p.0).hdr().same_but_files(&self.hdr())',
+        # "instructions = the slice between the two cursor positions": the sequences tile a prefix of the program, in order,
+        # without gaps or overlaps, each at least one instruction (its DW_LNE_end_sequence) long
+        f'[C04:sequences-slices][C10:view] res matches Ok(p) ==> seqs_tile({PV}, p.1@, seqs_end({PV}, p.1@))'],
+        before=[('let mut sequences = Vec::new();', 'let ghost pv = self.hdr().program_view(); let ghost h0 = self.hdr();'),
+                ('let row = &rows.row;', 'proof { trace = trace.push(rows.row_regs()); }'),
+                ('sequences.push(LineSequence {', 'let ghost cut = rows.instrs().start;'),
+                ('sequence_start_addr = None;\n            instructions =',
+                 # mid-point obligation: "each sequence's reported address bounds are its first and end addresses", over the
+                 # rows next_row handed out since the previous sequence ended (trace)
+                 'proof {\n assert(({ let s = sequences@.last(); let n = trace.len() as int; n >= 1 && trace[n - 1].end_sequence && s.end as int == trace[n - 1].address '
+                 '&& (forall|i: int| 0 <= i < n - 1 ==> !(#[trigger] trace[i]).end_sequence) && s.start as int == (if n >= 2 { trace[0].address } else { 0 }) '
+                 '&& s.iv().start + s.iv().len == cut })); // [C04:sequence-bounds]\n trace = Seq::empty();\n }')],
+        after=[('let mut sequence_start_addr = None;', 'let ghost mut trace: Seq<LineRegs> = Seq::empty();')],
+        loops={0: '''invariant
+                rows.wf(), rows.prog().hdr().same_but_files(&h0),
+                within(pv, rows.instrs()), within(pv, instructions.iv()), instructions.iv().start <= rows.instrs().start,
+                seqs_tile(pv, sequences@, instructions.iv().start), // [C04:sequences-slices]
+                forall|i: int| 0 <= i < trace.len() ==> !(#[trigger] trace[i]).end_sequence && 0 <= trace[i].address <= 0xffff_ffff_ffff_ffff, // [C04:sequence-bounds]
+                sequence_start_addr == (if trace.len() == 0 { None::<u64> } else { Some(trace[0].address as u64) }), // [C04:sequence-bounds]
+            decreases rows.instrs().len'''})
+    sk.add(M, sq)
     return sk
 
 
